@@ -1,18 +1,19 @@
 (* drv_traversal.ml — handlers of the `traversal` engine: replays the explorer's actions on the
-   extracted LTS (the rt_ functions of Model) and prints the same observables.  Between two quiescent points the
-   real goroutines interleave freely, so the runner keeps the SET of model states that are
-   consistent with everything observed so far; an observation is echoed when at least one
-   candidate state produces exactly it (those candidates survive), otherwise `REJECT`. *)
+   extracted LTS (the rt_ functions of Model) and prints the same observables.  Between two
+   quiescent points the real goroutines interleave freely, so the runner keeps the SET of model
+   states that are consistent with everything observed so far; an observation is echoed when at
+   least one candidate state produces exactly it (those candidates survive), otherwise `REJECT`.
+   Only rt_-prefixed functions of Model and the shared Order/Base types are used (CONVENTIONS:
+   flat extraction naming rule). *)
 open Model
 open Driver
 
 let pf = ref true   (* true: repaired algorithm (default); VERIF_TRAV_PINNED=1 replays the pinned one *)
 let () = (match Sys.getenv_opt "VERIF_TRAV_PINNED" with Some "1" -> pf := false | _ -> ())
 
-let cfg : tcfg ref = ref { c_target = N0; c_k = O; c_alpha = O; c_bad_addr = []; c_bad_id = []; c_bad_data = [] }
+let cfg = ref (rt_mk_cfg N0 O O [] [] [])
 (* candidate states, each with the number of started queries already reported *)
-let cands : (n state * int) list ref = ref []
-let cur_case = ref ""
+let cands = ref [ (rt_init, 0) ]
 
 let ap_of_tok s : addrport =
   match split_on ':' s with
@@ -20,7 +21,7 @@ let ap_of_tok s : addrport =
   | _ -> failwith ("ap " ^ s)
 let tok_of_ap (a : addrport) : string =
   Printf.sprintf "%s:%s" (hex_of_bytes (ip_of_ap a)) (dec_of_n a.ap_port)
-let ninfo_of_tok s : n * addrport =
+let ninfo_of_tok s =
   match split_on ':' s with
   | [ip; port; id] -> (n_of_hex id, ap_of_ip (bytes_of_hex ip) (n_of_dec port))
   | _ -> failwith ("ninfo " ^ s)
@@ -31,27 +32,26 @@ let counted (toks : string list) : string list * string list =
   | n :: rest -> let n = int_of_string n in (take n rest, drop n rest)
   | [] -> failwith "counted"
 
-let render (s : n state) (nprev : int) : string list =
-  let started = List.sort compare (List.map (fun a -> tok_of_ap a.ami_addr) (drop nprev s.st_started)) in
-  let infl = List.filter (fun q -> q.q_pc = QWait) s.st_inflight in
+let render s (nprev : int) : string list =
+  let started = List.sort compare (List.map tok_of_ap (drop nprev (rt_started s))) in
   let ctx = List.sort compare
-      (List.map (fun q -> Printf.sprintf "%s:%d" (tok_of_ap q.q_cand.ami_addr) (if q.q_cancelled then 1 else 0)) infl) in
+      (List.map (fun (a, c) -> Printf.sprintf "%s:%d" (tok_of_ap a) (if c then 1 else 0)) (rt_ctx s)) in
   ["s"; string_of_int (List.length started)] @ started @
-  ["o"; string_of_int (int_of_nat s.st_out); "u"; string_of_int (List.length s.st_unq);
-   "st"; tok_of_bool (rt_stalled s); "sp"; tok_of_bool s.st_stopped;
+  ["o"; string_of_int (int_of_nat (rt_out s)); "u"; string_of_int (int_of_nat (rt_unq_len s));
+   "st"; tok_of_bool (rt_stalled s); "sp"; tok_of_bool (rt_stopped s);
    "c"; string_of_int (List.length ctx)] @ ctx
 
 let dedup l = List.sort_uniq compare l
 
 (* [outs]: candidate successor states with a token prefix each (e.g. the AddNodes return value) *)
-let observe (outs : (string list * n state * int) list) (observed : string list) : string =
+let observe outs (observed : string list) : string =
   let outs = dedup outs in
   let rendered = List.map (fun (pre, s, np) -> (pre @ render s np, s)) outs in
   let ok = List.filter (fun (r, _) -> r = observed) rendered in
-  let after (s : n state) =
+  let after s =
     (* the harness consumed the stalled offer it saw *)
-    let s' = if rt_stalled s && not s.st_stopping then rt_take_stall !cfg !pf s else s in
-    (s', List.length s'.st_started) in
+    let s' = if rt_stalled s && not (rt_stopping s) then rt_take_stall !cfg !pf s else s in
+    (s', List.length (rt_started s')) in
   match ok with
   | [] ->
     cands := dedup (List.map (fun (_, s) -> after s) rendered);
@@ -64,13 +64,12 @@ let observe (outs : (string list * n state * int) list) (observed : string list)
 
 let () =
   reg "tbegin" (fun a _ -> match a with
-    | case :: target :: k :: alpha :: rest ->
+    | _case :: target :: k :: alpha :: rest ->
       let ba, rest = counted rest in
       let bi, rest = counted rest in
       let bd, _ = counted rest in
-      cur_case := case;
-      cfg := { c_target = n_of_hex target; c_k = nat_of_int (int_of_string k); c_alpha = nat_of_int (int_of_string alpha);
-               c_bad_addr = List.map ap_of_tok ba; c_bad_id = List.map n_of_hex bi; c_bad_data = List.map n_of_dec bd };
+      cfg := rt_mk_cfg (n_of_hex target) (nat_of_int (int_of_string k)) (nat_of_int (int_of_string alpha))
+          (List.map ap_of_tok ba) (List.map n_of_hex bi) (List.map n_of_dec bd);
       cands := [ (rt_init, 0) ];
       "ok"
     | _ -> "?");
@@ -93,7 +92,7 @@ let () =
           (match split_on ':' from with
            | [ip; port; id; d] -> Some ((n_of_hex id, ap_of_ip (bytes_of_hex ip) (n_of_dec port)), n_of_dec d)
            | _ -> failwith "from") in
-      let r = { r_from = from; r_nodes = List.map ninfo_of_tok nodes; r_nodes6 = List.map ninfo_of_tok nodes6 } in
+      let r = rt_mk_resp from (List.map ninfo_of_tok nodes) (List.map ninfo_of_tok nodes6) in
       let a = ap_of_tok addr in
       let outs = List.concat_map (fun (s, np) ->
           List.map (fun s' -> ([], s', np)) (rt_complete !cfg !pf s a r)) !cands in
@@ -104,6 +103,6 @@ let () =
       let obs = List.map kel_of_tok contents in
       if List.exists (fun (s, _) -> rt_accept_closest !cfg s obs) !cands then String.concat " " o
       else (match !cands with
-          | (s, _) :: _ -> "REJECT closest one-allowed= " ^ String.concat " " (List.map tok_of_kel s.st_closest)
+          | (s, _) :: _ -> "REJECT closest one-allowed= " ^ String.concat " " (List.map tok_of_kel (rt_closest s))
           | [] -> "REJECT no-state")
     | _ -> "?")
